@@ -224,8 +224,10 @@ def freeCount (mask : List Bool) : Nat := mask.count false
 
 /-- `centered_disk_mask((rows, cols), scale)` with `radius = int(sqrt(rows * cols * scale / pi))`:
 `(x - rows // 2)² + (y - cols // 2)² < radius²`, flattened row-major. -/
+def sq (a : Int) : Int := a * a
+
 def inDisk (rows cols : Nat) (radius : Int) (x y : Nat) : Bool :=
-  decide (((x : Int) - (rows / 2 : Nat)) ^ 2 + ((y : Int) - (cols / 2 : Nat)) ^ 2 < radius ^ 2)
+  decide (sq ((x : Int) - (rows / 2 : Nat)) + sq ((y : Int) - (cols / 2 : Nat)) < sq radius)
 
 def centeredDisk (rows cols : Nat) (radius : Int) : List Bool :=
   (List.range (rows * cols)).map fun k => inDisk rows cols radius (k / cols) (k % cols)
@@ -233,7 +235,7 @@ def centeredDisk (rows cols : Nat) (radius : Int) : List Bool :=
 /-- CIRCUS: `disk = (Y - c0)² + (X - c1)² <= radius²` for a float radius, i.e. `d² ≤ thr` with
 `thr = floor(radius²)`. -/
 def inDiskLe (rows cols : Nat) (thr : Int) (x y : Nat) : Bool :=
-  decide (((x : Int) - (rows / 2 : Nat)) ^ 2 + ((y : Int) - (cols / 2 : Nat)) ^ 2 ≤ thr)
+  decide (sq ((x : Int) - (rows / 2 : Nat)) + sq ((y : Int) - (cols / 2 : Nat)) ≤ thr)
 
 def diskLe (rows cols : Nat) (thr : Int) : List Bool :=
   (List.range (rows * cols)).map fun k => inDiskLe rows cols thr (k / cols) (k % cols)
